@@ -2,7 +2,9 @@
 use rooc::model_transformer::Exp;
 use rooc::{BinOp, UnOp};
 
-pub fn num(v: f64) -> String { format!("#x{:016x}", v.to_bits()) }
+/// bit pattern of an f64; every NaN is canonicalised (Lean's `Float.toBits` does the same, and the sign /
+/// payload of a NaN is not observable through any rooc API)
+pub fn num(v: f64) -> String { if v.is_nan() { "#x7ff8000000000000".to_string() } else { format!("#x{:016x}", v.to_bits()) } }
 pub fn q(s: &str) -> String {
     let mut o = String::with_capacity(s.len() + 2);
     o.push('"');
